@@ -362,6 +362,65 @@ fn ledger(args: &Args, sinks: &mut Sinks) {
         *comps.iter().find(|c| c.as_node_id().entity_type() == Some(EntityType::GlobalValidator)).expect("genesis validator")
     };
     let mut l = L { ledger, accts, fung, nf, pool, pool_unit, validator, next_nf: 100, burst_done: false };
+    // ---- boundary block (always, before anything random): scan limits at count-1 / count / count+1 / 0 / 1 over a
+    // vault that is untouched, has entries removed and re-inserted, removed, freshly minted, or was created in the
+    // same transaction; withdrawals by amount of 1 / count-1 / count / count+1; a failing transaction after a
+    // fee lock on an account vault (force write + revert); a jump of 100 epochs (tracker partition deletion)
+    {
+        let (a0, a1) = (l.accts[0], l.accts[1]);
+        let nf = l.nf;
+        let ids_call = |bld: ManifestBuilder, acct: ComponentAddress, limit: u32| {
+            bld.call_method(acct, ACCOUNT_NON_FUNGIBLE_LOCAL_IDS_IDENT, AccountNonFungibleLocalIdsInput { resource_address: nf, limit })
+        };
+        let count = |l: &mut L, acct: ComponentAddress| -> u32 { l.ledger.get_component_balance(acct, nf).to_string().parse::<u32>().unwrap() };
+        let k = count(&mut l, a0);
+        for limit in [0u32, 1, k - 1, k, k + 1] {
+            let m = ids_call(ManifestBuilder::new().lock_fee_from_faucet(), a0, limit).build();
+            exec(&mut l, sinks, &format!("edge:list-untouched:{}", limit), m);
+        }
+        for limit in [1u32, k - 1, k, k + 1] {
+            let m = ids_call(ManifestBuilder::new().lock_fee_from_faucet().withdraw_from_account(a0, nf, dec!(2)).try_deposit_entire_worktop_or_abort(a0, None), a0, limit).build();
+            exec(&mut l, sinks, &format!("edge:list-after-out-and-in:{}", limit), m);
+        }
+        for d in [-1i64, 0, 1] {
+            let k = count(&mut l, a0);
+            let limit = ((k as i64 - 1) + d) as u32;
+            let m = ids_call(ManifestBuilder::new().lock_fee_from_faucet().withdraw_from_account(a0, nf, dec!(1)).try_deposit_entire_worktop_or_abort(a1, None), a0, limit).build();
+            exec(&mut l, sinks, &format!("edge:list-after-removal:{}", d), m);
+        }
+        for d in [-1i64, 0, 1] {
+            let k = count(&mut l, a0);
+            let ids: Vec<(NonFungibleLocalId, EmptyNonFungibleData)> = (0..2).map(|_| { l.next_nf += 1; (NonFungibleLocalId::integer(l.next_nf), EmptyNonFungibleData {}) }).collect();
+            let limit = ((k as i64 + 2) + d) as u32;
+            let m = ids_call(ManifestBuilder::new().lock_fee_from_faucet().mint_non_fungible(nf, ids).try_deposit_entire_worktop_or_abort(a0, None), a0, limit).build();
+            exec(&mut l, sinks, &format!("edge:list-after-mint:{}", d), m);
+        }
+        // a vault created in the same transaction (new node: the database is not consulted)
+        for limit in [1u32, 2, 3] {
+            let fresh = l.ledger.new_account_advanced(OwnerRole::Fixed(rule!(allow_all)));
+            let m = ids_call(ManifestBuilder::new().lock_fee_from_faucet().withdraw_from_account(a0, nf, dec!(2)).try_deposit_entire_worktop_or_abort(fresh, None), fresh, limit).build();
+            exec(&mut l, sinks, &format!("edge:list-new-vault:{}", limit), m);
+        }
+        // withdrawals by amount (index drain) of 1 / count-1 / count / count+1, moving the ids to and fro
+        let (mut from, mut to) = (a1, a0);
+        for which in ["one", "all-but-one", "all", "one-too-many"] {
+            let k = count(&mut l, from);
+            let n = match which { "one" => 1, "all-but-one" => k.saturating_sub(1).max(1), "all" => k, _ => k + 1 };
+            let m = ManifestBuilder::new().lock_fee_from_faucet().withdraw_from_account(from, nf, Decimal::from(n)).try_deposit_entire_worktop_or_abort(to, None).build();
+            exec(&mut l, sinks, &format!("edge:drain:{}", which), m);
+            std::mem::swap(&mut from, &mut to);
+        }
+        // fee locked on the account's own vault, then the transaction fails: only the force-written vault survives
+        let m = ManifestBuilder::new().lock_fee(a0, dec!(20)).withdraw_from_account(a0, XRD, dec!(100000000)).try_deposit_entire_worktop_or_abort(a1, None).build();
+        exec(&mut l, sinks, "edge:fail-after-account-fee-lock", m);
+        let m = ManifestBuilder::new().lock_fee(a0, dec!(20)).withdraw_from_account(a0, l.fung, dec!(1)).try_deposit_entire_worktop_or_abort(a1, None).build();
+        exec(&mut l, sinks, "edge:account-fee-lock", m);
+        // a hundred epochs later the transaction tracker drops its oldest partition at the next committed transaction
+        let e = l.ledger.get_current_epoch();
+        l.ledger.set_current_epoch(Epoch::of(e.number() + 100));
+        let m = ManifestBuilder::new().lock_fee_from_faucet().withdraw_from_account(a0, XRD, dec!(1)).try_deposit_entire_worktop_or_abort(a1, None).build();
+        exec(&mut l, sinks, "edge:after-100-epochs", m);
+    }
     // the first transactions are fixed (one of every kind, so that even a short history issues every Track
     // operation); after them the kinds are drawn at random
     let prelude: [u32; 10] = [45, 57, 5, 25, 35, 62, 70, 78, 85, 95];
